@@ -8,11 +8,19 @@ open Btc Btc.EC
 
 variable {α G : Type} [AddCommGroup G] {o : GroupOps α} (L : Lawful o G)
 
-/-- PROPOSED additional law (true of affine points of an elliptic curve, where the representation of a
-    group element is unique): the parity of `y` is a function of the group element.  Needed only by
-    key recovery, which reads the parity bit of `key_id`. -/
+/-- the parity of `y` is a function of the group element (true of affine points of an elliptic curve,
+    where the representation of a group element is unique).  Needed only by key recovery, which reads
+    the parity bit of `key_id`; it follows from `Lawful.y_congr` (`yParity` below). -/
 def YParity (L : Lawful o G) : Prop :=
   ∀ P Q, L.abs P ≠ 0 → L.abs P = L.abs Q → o.y P % 2 = o.y Q % 2
+
+/-- `YParity` is the law `Lawful.y_congr` (added to the shared bundle by C16) -/
+theorem yParity (L : Lawful o G) : YParity L := by
+  intro P Q hP h
+  have := L.y_congr P Q h hP
+  have h1 := Int.emod_two_eq_zero_or_one (o.y P)
+  have h2 := Int.emod_two_eq_zero_or_one (o.y Q)
+  omega
 
 /-- the x-coordinate is a function of the group element up to sign -/
 theorem x_congr {P Q : α} (hP : L.abs P ≠ 0) (h : L.abs Q = L.abs P ∨ L.abs Q = - L.abs P) :
